@@ -145,6 +145,18 @@ class SymArr:
         return self.fn(*idx)
 
 
+class SymRange:
+    def __init__(self, lo, hi):
+        self.lo, self.hi = lo, hi
+
+
+class GenericItem:
+    """list element appended in a generic iteration: for every var in [lo, hi): value(var), at list position offset+var-lo"""
+
+    def __init__(self, var, lo, hi, value, pc):
+        self.var, self.lo, self.hi, self.value, self.pc = var, lo, hi, value, pc
+
+
 class SymFn:
     """mapping given as a function (dict with symbolic keys)"""
 
@@ -216,6 +228,12 @@ class PState:
         r = Ref()
         self.heap[r.id] = obj
         return r
+
+
+def _mentions(e, c):
+    if e.eq(c):
+        return True
+    return any(_mentions(ch, c) for ch in e.children())
 
 
 def pyconst(v):
@@ -617,6 +635,26 @@ class PyExec:
                 else:
                     outs.append((x, fl, v, e2))
             return self.merge_normals(outs)
+        if isinstance(it, SymRange):
+            gi = z3.Int("gi!%d" % next(Ref._ids))
+            self.assign(st, n.target, gi, env)
+            self.generic_loop = getattr(self, "generic_loop", []) + [(gi, it.lo, it.hi, len(st.pc))]
+            st.pc.append(z3.And(gi >= it.lo, gi < it.hi))
+            try:
+                outs = self.exec_block(st, n.body, env)
+            finally:
+                self.generic_loop = self.generic_loop[:-1]
+            res = []
+            for (x, fl, v, e2) in outs:
+                if fl in ("normal", "continue"):
+                    # facts about the generic index do not outlive the loop
+                    x.pc = [h for h in x.pc if not _mentions(h, gi)]
+                    res.append((x, "normal", None, e2))
+                elif fl == "break":
+                    raise CheckerError("break inside a loop with symbolic trip count")
+                else:
+                    res.append((x, fl, v, e2))
+            return self.merge_normals(res)
         seq = self.iterate(st, it)
         cur = [(st, env)]
         results = []
@@ -975,6 +1013,18 @@ class PyExec:
         return Opaque(why)
 
     def binop(self, st, op, a, b, node):
+        if isinstance(a, SymArr) or isinstance(b, SymArr):
+            if isinstance(a, SymArr) and isinstance(b, SymArr):
+                if len(a.shape) == len(b.shape):
+                    return SymArr(a.shape, (lambda *i, a=a, b=b: self.binop(st, op, a.fn(*i), b.fn(*i), node)), "elementwise")
+                big, small, flip = (a, b, False) if len(a.shape) > len(b.shape) else (b, a, True)
+                k = len(small.shape)
+                return SymArr(big.shape, (lambda *i, big=big, small=small, flip=flip, k=k:
+                                          self.binop(st, op, small.fn(*i[-k:]), big.fn(*i), node) if flip else self.binop(st, op, big.fn(*i), small.fn(*i[-k:]), node)),
+                              "broadcast elementwise")
+            if isinstance(a, SymArr):
+                return SymArr(a.shape, (lambda *i, a=a: self.binop(st, op, a.fn(*i), b, node)), "elementwise")
+            return SymArr(b.shape, (lambda *i, b=b: self.binop(st, op, a, b.fn(*i), node)), "elementwise")
         if isinstance(a, Opaque) or isinstance(b, Opaque):
             return Opaque("arithmetic on an abstracted value")
         if isinstance(op, ast.Mult):
@@ -1232,6 +1282,13 @@ class PyExec:
     def attribute(self, st, n, env):
         o = self.eval(st, n.value, env)
         a = n.attr
+        if isinstance(o, str):
+            return Hooked(lambda ex, st_, args, kwargs, o=o, a=a: getattr(o, a)(*args, **kwargs))
+        if isinstance(o, SymArr):
+            if a == "ndim":
+                return len(o.shape)
+            if a == "shape":
+                return tuple(o.shape)
         if isinstance(o, Opaque):
             if a in ("T", "real", "imag", "flat"):
                 return Opaque(a + " view of " + o.why, buf=o.buf)
@@ -1387,6 +1444,9 @@ class PyExec:
             try:
                 return range(*[self.cidx(a) for a in args])
             except CheckerError:
+                if len(args) <= 2 and all(is_sym(a) or isinstance(a, int) for a in args):
+                    lo, hi = (num(0), num(args[0])) if len(args) == 1 else (num(args[0]), num(args[1]))
+                    return SymRange(lo, hi)
                 if self.opaque_unknown:
                     return Opaque("range over a symbolic bound")
                 raise
@@ -1436,7 +1496,12 @@ class PyExec:
         if name == "print":
             return None
         if name.startswith("list.append@"):
-            st.heap[int(name.split("@")[1])].items.append(args[0])
+            gl = getattr(self, "generic_loop", [])
+            if gl:
+                gi, lo, hi, npc = gl[-1]
+                st.heap[int(name.split("@")[1])].items.append(GenericItem(gi, lo, hi, args[0], list(st.pc[npc:])))
+            else:
+                st.heap[int(name.split("@")[1])].items.append(args[0])
             return None
         if name.startswith("nd.copy@"):
             o = st.heap[int(name.split("@")[1])]
